@@ -54,7 +54,7 @@ pub fn gen_any_small(rng: &mut Rng, tier: Tier, small: bool) -> Case {
                 spec.knobs.ctor = 0;
                 spec.knobs.fin = 1;
             }
-            Case::File(FileCase { spec, env: EnvPlan::whole(), v1: false })
+            Case::File(FileCase { spec, env: EnvPlan::whole(), v1: false, big: None })
         }
         1 => {
             let mut spec = if rng.chance(1, 2) { gen::gen_layered_spec(rng, Tier::Quick) } else { gen::gen_file_spec(rng, Tier::Quick, false) };
@@ -139,7 +139,7 @@ pub fn gen_c11(rng: &mut Rng, tier: Tier) -> Case {
         let spec = FileSpec { knobs, entries: Entries::Literal(ents) };
         let env = gen::gen_env(rng, false);
         return if rng.chance(1, 2) {
-            Case::File(FileCase { spec, env, v1: false })
+            Case::File(FileCase { spec, env, v1: false, big: None })
         } else {
             let steps = vec![
                 CursorStep { cur: 0, op: Op::First },
@@ -150,6 +150,27 @@ pub fn gen_c11(rng: &mut Rng, tier: Tier) -> Case {
             ];
             Case::Cursor(CursorCase { spec, env, steps, fresh_each: false, v1: false, sparse_hole: None })
         };
+    }
+    if rng.chance(1, 60) {
+        // one block of 70-300 KiB that does not compress (larger than any staging buffer a codec
+        // reader may use, small enough for byte-wise schedules)
+        let big = rng.urange(70 << 10, 300 << 10);
+        let n = rng.urange(1, 5);
+        let at = rng.usize_below(n);
+        let mut ents = Vec::new();
+        for i in 0..n {
+            let small = rng.urange(0, 30);
+            let v = if i == at { rng.bytes(big) } else { rng.bytes(small) };
+            ents.push((B(vec![b'm', i as u8]), B(v)));
+        }
+        let knobs = Knobs { codec: *rng.pick(&[4u8, 4, 4, 2, 3, 5, 1]), level: 1, block_size: None, interval: None, levels: *rng.pick(&[0u8, 1]), ctor: 0, fin: 0 };
+        let spec = FileSpec { knobs, entries: Entries::Literal(ents) };
+        let steps = vec![
+            CursorStep { cur: 0, op: Op::First },
+            CursorStep { cur: 0, op: Op::NextN(n as u32) },
+            CursorStep { cur: 0, op: Op::Ge(B(vec![b'm', at as u8])) },
+        ];
+        return Case::Cursor(CursorCase { spec, env: gen::gen_env(rng, false), steps, fresh_each: false, v1: false, sparse_hole: None });
     }
     let c = gen_any_small(rng, tier, false);
     let env = gen::gen_env(rng, false);
@@ -266,6 +287,17 @@ pub fn check_c11(case: &Case, st: &mut Stats) -> Verdict {
             },
         ),
     ];
+    let mut variants = variants;
+    variants.push((
+        "intr-storm",
+        EnvPlan {
+            modes: vec![IoMode::ChopBurst { max: scale * 4096, den: 3 + (plan.stream % 5) as u32, burst: 17 + (plan.stream % 23) as u32 }],
+            stream: mix(plan.stream, 99),
+            faults: vec![],
+            crash: None,
+            buffered: plan.stream % 3 == 0,
+        },
+    ));
     let mut io_opts = RunOpts::default();
     io_opts.keep_io = true;
     for (name, p) in &variants {
